@@ -23,7 +23,7 @@ INFO = {
 HELPER = r'''
 import json, os, sys, time
 sched = json.load(open(os.environ["WDV_SCHED"]))
-json.dump({"argv": sys.argv[1:], "env": {k: os.environ.get(k) for k in ("WAYLAND_DEBUG", "LD_LIBRARY_PATH", "WDV_KEEP")}}, open(os.environ["WDV_DUMP"], "w"))
+json.dump({"argv": sys.argv[1:], "env": {k: os.environ.get(k) for k in ("WAYLAND_DEBUG", "LD_LIBRARY_PATH", "WDV_KEEP", "WDV_OTHER")}}, open(os.environ["WDV_DUMP"], "w"))
 sys.stdout.write("MARKER-ON-STDOUT\n"); sys.stdout.flush()
 fd = 2
 for chunk, delay in sched["chunks"]:
@@ -65,9 +65,13 @@ def chunkings(rnd, text):
     return parts
 
 
-def run_mode(mode, text, sched, workdir, extra_args=()):
+def run_mode(mode, text, sched, workdir, extra_args=(), parent_env=None, lib_dir=None):
     env = dict(os.environ, PYTHONPATH=common.REPO, WDV_KEEP='kept')
     env.pop('WAYLAND_DEBUG', None)
+    env.pop('LD_LIBRARY_PATH', None)
+    for k, v in (parent_env or {}).items():
+        if v is not None:
+            env[k] = v
     main = os.path.join(common.REPO, 'main.py')
     if mode == 'load':
         p = os.path.join(workdir, 'log.txt')
@@ -82,7 +86,8 @@ def run_mode(mode, text, sched, workdir, extra_args=()):
         open(hp, 'w').write(HELPER)
         env['WDV_SCHED'] = sp
         env['WDV_DUMP'] = os.path.join(workdir, 'dump.json')
-        r = subprocess.run([sys.executable, '-B', main, '-C', '-r', sys.executable, hp] + list(extra_args), input='q\n', capture_output=True, text=True, env=env, timeout=120)
+        pre = ['--libwayland', lib_dir] if lib_dir else []
+        r = subprocess.run([sys.executable, '-B', main, '-C'] + pre + ['-r', sys.executable, hp] + list(extra_args), input='q\n', capture_output=True, text=True, env=env, timeout=120)
     return r
 
 
@@ -105,21 +110,30 @@ def run(res):
     work = os.path.join(common.BUILD, 'c13')
     os.makedirs(work, exist_ok=True)
     statuses = [0, 1, 2, 7, 255] if res.tier == 'quick' else list(range(256))
+    libdir = os.path.join(work, 'lib')
+    os.makedirs(libdir, exist_ok=True)
+    for f in ('libwayland-client.so', 'libwayland-server.so'):
+        open(os.path.join(libdir, f), 'w').close()
     for k in range(n):
         text = make_stream(rnd)
         status = statuses[k % len(statuses)] if res.tier != 'quick' else rnd.choice(statuses)
         sched = {'chunks': chunkings(rnd, text), 'status': status}
         extra = rnd.choice([[], ['-g', '--run'], ['a b', '-l', 'x'], ['--', '-C']])
+        # the environment wayland-debug itself is started in: WAYLAND_DEBUG already set to something, a library path present or not
+        penv = {'WAYLAND_DEBUG': rnd.choice([None, None, '1', '0', '', 'server', 'client']),
+                'LD_LIBRARY_PATH': rnd.choice([None, None, '/opt/wdv/lib', '/a:/b']),
+                'WDV_OTHER': rnd.choice([None, 'x y', ''])}
+        lib_dir = rnd.choice([None, None, libdir])
         try:
             rl = run_mode('load', text, sched, work)
             rp = run_mode('pipe', text, sched, work)
-            rr = run_mode('run', text, sched, work, extra)
+            rr = run_mode('run', text, sched, work, extra, penv, lib_dir)
         except subprocess.TimeoutExpired as e:
             res.disagree('a mode hung', dict(text=text, sched=sched), None, repr(e), sig={'category': 'timeout'})
             continue
         res.evaluations += 3
         dl, dp, dr = display(rl.stdout), display(rp.stdout), display(rr.stdout)
-        case = dict(text=text, sched=sched, extra=extra)
+        case = dict(text=text, sched=sched, extra=extra, parent_env=penv, lib_dir=lib_dir)
         if not (dl == dp == dr):
             res.disagree('file, pipe and run mode display different things', case, None,
                          {'load': dl[-6:], 'pipe': dp[-6:], 'run': dr[-6:], 'stderr_run': rr.stderr[-400:]},
@@ -137,8 +151,12 @@ def run(res):
         except Exception as e:
             res.disagree('helper did not run', case, None, repr(e), sig={'category': 'spawn'})
             continue
-        if dump['argv'] != extra or dump['env']['WAYLAND_DEBUG'] != '1' or dump['env']['WDV_KEEP'] != 'kept':
-            res.disagree('program not started with verbatim argv / WAYLAND_DEBUG=1 / its environment', case, [extra, '1', 'kept'], dump,
+        # C13_spawn_transparent: LD_LIBRARY_PATH = ':'.join(non-empty of [lib dir, old value]); the default lib dir (resources/wayland/build/src) does not exist here
+        want_ld = ':'.join([x for x in [lib_dir, penv['LD_LIBRARY_PATH']] if x])
+        if (dump['argv'] != extra or dump['env']['WAYLAND_DEBUG'] != '1' or dump['env']['WDV_KEEP'] != 'kept'
+                or dump['env']['WDV_OTHER'] != penv['WDV_OTHER'] or (dump['env']['LD_LIBRARY_PATH'] or '') != want_ld):
+            res.disagree('program not started with verbatim argv / WAYLAND_DEBUG=1 / the library path rule / its environment otherwise untouched', case,
+                         [extra, '1', 'kept', penv['WDV_OTHER'], want_ld], dump,
                          sig={'category': 'spawn'}, theorem='C13_spawn_transparent')
             continue
         # against the model: same lines through the model's pipeline
@@ -147,13 +165,10 @@ def run(res):
     res.sample({'stream_head': text[:200], 'chunks': len(sched['chunks']), 'status': status})
     stdin_eof(res, work)
     res.rule = ('generated streams (messages + chatter, with and without final newline) written by a helper in 1..n chunks with delays (incl. byte-by-byte and mid-line splits), '
-                'exit statuses %s, forwarded words that look like our options; each run under -l, -p and -r; non-trivial = all three modes agree and run mode is transparent; distinct by (stream, chunking)'
+                'exit statuses %s, forwarded words that look like our options, wayland-debug itself started with WAYLAND_DEBUG unset/1/0/empty/server/client, with and without LD_LIBRARY_PATH and --libwayland DIR; each run under -l, -p and -r; non-trivial = all three modes agree and run mode is transparent; distinct by (stream, chunking)'
                 % ('0,1,2,7,255' if res.tier == 'quick' else '0..255'))
-    for f in os.listdir(work):
-        try:
-            os.remove(os.path.join(work, f))
-        except OSError:
-            pass
+    import shutil
+    shutil.rmtree(work, ignore_errors=True)
 
 
 def stdin_eof(res, work):
